@@ -13,7 +13,7 @@ def main():
     res = {}
     try:
         for p in props:
-            q = subprocess.run(["/verif/check", p, tier], capture_output=True, text=True, cwd="/verif")
+            q = subprocess.run(["/verif/check", p, tier], capture_output=True, text=True, cwd="/verif", env=dict(os.environ, VERIF_EVIDENCE_DIR="/tmp/hsverif-seeded-evidence"))
             line = [l for l in q.stdout.split("\n") if l.startswith("VIOLATION")]
             res[p] = {"exit": q.returncode, "violation": line[0] if line else None,
                       "what": [l.strip() for l in q.stdout.split("\n") if l.strip().startswith(("what:", "corr[", "proof:"))][:2]}
